@@ -199,8 +199,8 @@ Inductive oev :=
 
 Definition oev_of (e : ev) : list oev :=
   match e with
-  | EvSubCb c _ => [OSubCb c] | EvCommit _ _ => []
-  | EvJoin c _ => [OJoin c] | EvLeave c _ => [OLeave c] | EvUnsubCb c _ => [OUnsubCb c]
+  | EvSubCb c _ => [OSubCb c] | EvCommit _ _ _ _ => [] | EvJoinSkipped _ _ _ => []
+  | EvJoin _ c _ => [OJoin c] | EvLeave c _ => [OLeave c] | EvUnsubCb c _ => [OUnsubCb c]
   | EvConnectCb => [OConnectCb] | EvDisconnectCb => [ODisconnectCb] | EvAliveCb => [OAliveCb]
   end.
 Definition otrace (s : st) : list oev := flat_map oev_of (trace s).
@@ -237,7 +237,9 @@ Record chobs := mkChObs {
   co_nsubs : N;             (* Hub.NumSubscribers(ch) *)
   co_pres : bool;           (* this connection is in Node.Presence(ch) *)
   co_bsub : bool;           (* the node is broker-subscribed to ch *)
-  co_deliv : N              (* copies of a marker publication received by the connection *)
+  co_deliv : N;             (* copies of a marker publication received by the connection *)
+  co_fpres : bool;          (* the subscribed context has flagEmitPresence *)
+  co_fjl : bool             (* the subscribed context has flagEmitJoinLeave *)
 }.
 
 (* after every driver command, per channel of the universe (in order):
@@ -269,6 +271,10 @@ Definition ch_routing_ok (s : st) (o : chobs) : bool :=
   optN_eqb (option_map c_gen (lookup c (chans s))) (co_ctx o) &&
   Bool.eqb (is_subscribed s c) (co_issub o) &&
   optN_eqb (hub s c) (co_hub o) && (nsubs s c =? co_nsubs o) && (delivered s c =? co_deliv o).
+Definition sub_flag (s : st) (c : ch) (f : opts -> bool) : bool :=
+  match lookup c (chans s) with Some x => c_sub x && f (c_opts x) | None => false end.
+Definition ch_flags_ok (s : st) (o : chobs) : bool :=
+  Bool.eqb (sub_flag s (co_ch o) o_pres) (co_fpres o) && Bool.eqb (sub_flag s (co_ch o) o_jl) (co_fjl o).
 Definition ch_pres_ok (s : st) (o : chobs) : bool := Bool.eqb (pres s (co_ch o)) (co_pres o).
 Definition ch_bsub_ok (s : st) (o : chobs) : bool := Bool.eqb (bsub s (co_ch o)) (co_bsub o).
 Definition ch_trace_ok (s : st) (ob : obs) (o : chobs) : bool :=
@@ -313,7 +319,7 @@ Definition corr_all_rot (rot : bool) (c : case) : bool :=
       let ob := cs_obs c in
       conn_ok s ob && gauges_ok s ob && snaps_ok rot c &&
       (negb (ob_drained ob) || match jobs s with [] => true | _ => false end) &&
-      forallb (fun o => ch_routing_ok s o && ch_pres_ok s o && ch_bsub_ok s o && ch_trace_ok s ob o) (ob_chs ob)
+      forallb (fun o => ch_routing_ok s o && ch_flags_ok s o && ch_pres_ok s o && ch_bsub_ok s o && ch_trace_ok s ob o) (ob_chs ob)
   end.
 
 Definition corr_all (c : case) : bool := corr_all_rot false c || corr_all_rot true c.
